@@ -237,7 +237,36 @@ def helper_histories():
                 d.append("pos")
             if d:
                 bad.append(dict(history=f"Atoms(H2, center={mode!r}); build(); new {change}; center = {mode!r}; build()  vs  fresh object", fields_that_differ=d))
-    return bool(bad), dict(check="Atoms.recenter / Atoms.set_k / Atoms.center against fresh objects", failing=bad[:4])
+    # charge histories (the electron number is updated by differences): through a charge larger than the number of valence electrons and back
+    for hist in ((3, 0), (1, 3, -1, 0), (-2, 2)):
+        for unres in (False, True):
+            a = _mk(atom="He", unrestricted=unres)
+            for q in hist:
+                a.charge = q
+            a.build()
+            f = _mk(atom="He", unrestricted=unres, charge=hist[-1])
+            f.build()
+            d = _diff(_summary(a), _summary(f))
+            if int(a.occ.Nelec) != int(f.occ.Nelec):
+                d.append(f"Nelec {int(a.occ.Nelec)} vs {int(f.occ.Nelec)}")
+            if d:
+                bad.append(dict(history=f"Atoms(He, unrestricted={unres}); charge = {' -> '.join(map(str, hist))}; build()  vs  fresh Atoms(charge={hist[-1]})", fields_that_differ=d))
+    # the cell changed on an object in band-path mode (and in mesh mode): the Cartesian k-points belong to the new cell
+    for mode in ("path", "mesh"):
+        a = _mk(atom="Si", a=6.0)
+        if mode == "path":
+            a.kpts.path = "GXM"
+            a.kpts.Nk = 7
+        else:
+            a.kpts.kmesh = [2, 2, 1]
+        a.build()
+        a.a = [[7.0, 0.4, 0.0], [0.0, 8.0, 0.3], [0.2, 0.0, 9.0]]
+        a.build()
+        k, kap, cell = np.asarray(a.kpts.k, float), np.asarray(a.kpts.k_scaled, float), np.asarray(a.a, float)
+        dev = float(np.abs(k @ cell.T - 2 * np.pi * kap).max()) if mode == "mesh" or True else 0.0
+        if dev > 1e-10:
+            bad.append(dict(history=f"Atoms(Si, a=6) in {mode} mode; build(); a = triclinic; build()", max_abs_k_dot_a_minus_2pi_kappa=dev))
+    return bool(bad), dict(check="Atoms.recenter / Atoms.set_k / Atoms.center / charge histories / cell change with k-points against fresh objects", failing=bad[:4])
 
 
 def replay_history(wit):
